@@ -57,18 +57,19 @@ TLC_STATES = re.compile(r"(\d+) states generated, (\d+) distinct states found, (
 
 
 def run_mc(workdir, cfgs, invariants, properties, max_created, workers=16, timeout=600, simulate=None,
-           depth=None, seed=0, coverage=False):
+           depth=None, seed=0, coverage=False, export=False):
     """exhaustive (or -simulate) TLC run of CiwMC over the family `cfgs`.
     returns dict(status, states, distinct, transitions, wall, out, violated)"""
     copy_spec(workdir)
     with open(os.path.join(workdir, "MCFamily.tla"), "w") as f:
         f.write("---- MODULE MCFamily ----\nEXTENDS Integers\n")
-        f.write("Family == <<\n  " + ",\n  ".join(to_tla(c) for c in cfgs) + "\n>>\n")
+        f.write("Family == <<\n  " + ",\n  ".join(to_tla(dict(c, idx=j + 1)) for j, c in enumerate(cfgs)) + "\n>>\n")
         f.write("MaxCreated == %d\n" % max_created)
+        f.write("ExportDepth == %d\n" % (depth or 20))
         f.write("====\n")
     with open(os.path.join(workdir, "CiwMC.cfg"), "w") as f:
         f.write("SPECIFICATION Spec\nCHECK_DEADLOCK FALSE\nCONSTRAINT Bound\nVIEW View\n")
-        for i in invariants:
+        for i in invariants + (["Export"] if export else []):
             f.write("INVARIANT %s\n" % i)
         for p in properties:
             f.write("PROPERTY %s\n" % p)
@@ -78,6 +79,7 @@ def run_mc(workdir, cfgs, invariants, properties, max_created, workers=16, timeo
         args += ["-coverage", "1"]
     if simulate:
         args += ["-simulate", "num=%d" % simulate, "-depth", str(depth or 30), "-seed", str(seed)]
+
     args += ["CiwMC.tla"]
     t0 = time.time()
     try:
@@ -169,3 +171,21 @@ def run_pair_validation(workdir, pairs, timeout=900, name="p"):
         pass
     os.remove(tf)
     return verdicts, (int(m.group(2)) if m else 0)
+
+
+BEH = re.compile(r'^<<"BEH", "(.*)">>$')
+
+
+def parse_behaviours(out):
+    """behaviours printed by CiwMC!Export: list of lists of state dicts (state 0 = initial state)"""
+    behs = []
+    for line in out.splitlines():
+        m = BEH.match(line.strip())
+        if not m:
+            continue
+        b = json.loads(json.loads('"' + m.group(1) + '"'))
+        if isinstance(b, dict):      # ToJson of a function 1..n may come out as an object keyed "1".."n"
+            b = [b[str(j)] for j in range(1, len(b) + 1)]
+        if len(b) > 1 and all(x["err"] == "" for x in b):
+            behs.append(b)
+    return behs
